@@ -75,6 +75,13 @@ PROPS = {
                        "selected positions, or the block is skipped exactly when it holds none. The reversed-slice recasting, keys that mix "
                        "integers / lists / reversed slices on n-d arrays and multi-chunk dask values are bounded",
     },
+    "C08": {
+        "level": "exploration",
+        "explanation": "bounded contract on the real optimiser over the catalogue: simplify / lower / fuse terminate without error, a second "
+                       "application of simplify, of lower_completely and of optimize returns an expression of the same name, and the optimised "
+                       "form of a program that computes un-optimised still computes (to the same value). Termination and idempotence for ALL "
+                       "expression trees are whole-system fixpoint properties on which function contracts are silent: nothing is proved",
+    },
     "C23": {
         "level": "exploration",
         "explanation": "bounded contracts on the real random routines: a seeded Generator / RandomState array is one realization -- "
